@@ -130,6 +130,18 @@ class event_occurrence
         m_marked_for_deletion = true;
     }
 
+    // Completion event occurrences belong to the step that entered their
+    // source state, they are not counted as processed events.
+    void mark_as_completion_event()
+    {
+        m_is_completion_event = true;
+    }
+
+    bool is_completion_event() const
+    {
+        return m_is_completion_event;
+    }
+
     bool marked_for_deletion() const
     {
         return m_marked_for_deletion;
@@ -141,6 +153,7 @@ class event_occurrence
     // Deletion is deferred to allow the use of std::deque,
     // which provides better cache locality and lower per-element overhead.
     bool m_marked_for_deletion{};
+    bool m_is_completion_event{};
 };
 
 template <typename Event>
